@@ -1,4 +1,5 @@
 import XmpProofs.LzxFrame
+import XmpProofs.Lzw
 import XmpModel.MmcmpFrame
 /-!
 Byte-level framing of MMCMP files whose blocks are stored: `decrunchMmcmp` (model of `decrunch_mmcmp`) on a file
@@ -57,13 +58,13 @@ def SubsOk : Nat → List Bytes → Prop
   | _, [] => True
   | pos, d :: ds => pos < 2 ^ 31 ∧ d.length < 2 ^ 31 ∧ SubsOk (pos + d.length) ds
 
-theorem mmSubs_spec (f : Bytes) (subs : List Bytes) : ∀ (pos ofs : Nat) (T : Bytes),
+theorem mmSubs_spec (f : Bytes) (subs : List Bytes) : ∀ (pos ofs : Nat) (T : Bytes) (k : Nat),
     f.drop ofs = mmSubTable pos subs ++ T → SubsOk pos subs →
-    mmSubs f subs.length ofs = some (mmSubSpec pos subs) := by
+    mmSubs f subs.length ofs (subs.flatten.length + k) = some (mmSubSpec pos subs, k) := by
   induction subs with
-  | nil => intro pos ofs T _ _; rfl
+  | nil => intro pos ofs T k _ _; simp [mmSubs, mmSubSpec]
   | cons d ds ih =>
-    intro pos ofs T h hok
+    intro pos ofs T k h hok
     obtain ⟨h1, h2, h3⟩ := hok
     simp only [mmSubTable, List.append_assoc] at h
     have hlen : ¬ f.length < ofs + 8 := by
@@ -79,12 +80,16 @@ theorem mmSubs_spec (f : Bytes) (subs : List Bytes) : ∀ (pos ofs : Nat) (T : B
     simp only [List.length_cons, mmSubs, hlen, if_false, e0, e4]
     have hb : ¬ (pos ≥ 2 ^ 31 ∨ d.length ≥ 2 ^ 31) := by omega
     rw [if_neg hb]
+    have hbud : ¬ d.length > (d :: ds).flatten.length + k := by simp; omega
+    rw [if_neg hbud]
+    have hsub : (d :: ds).flatten.length + k - d.length = ds.flatten.length + k := by simp; omega
+    rw [hsub]
     have h' : f.drop (ofs + 8) = mmSubTable (pos + d.length) ds ++ T := by
       rw [← List.drop_drop, h]
       have : (le32 pos ++ (le32 d.length ++ (mmSubTable (pos + d.length) ds ++ T))) =
           (le32 pos ++ le32 d.length) ++ (mmSubTable (pos + d.length) ds ++ T) := by simp only [List.append_assoc]
       rw [this, List.drop_left' (by simp only [List.length_append, le32_length])]
-    rw [ih (pos + d.length) (ofs + 8) T h' h3]
+    rw [ih (pos + d.length) (ofs + 8) T k h' h3]
     rfl
 
 theorem mmBlockBytes_length (pos : Nat) (b : List Bytes) :
@@ -110,8 +115,8 @@ theorem flatten_pos (b : List Bytes) (hne : b ≠ []) (hs : ∀ d ∈ b, d ≠ [
 theorem mmBlock_step (dec : Nat → Nat → Nat → List (Nat × Nat) → Bytes → Bytes → Option Bytes) (f : Bytes)
     (bo : Nat) (b : List Bytes) (before T : Bytes) (k : Nat) (rest : List Nat)
     (h : f.drop bo = mmBlockBytes before.length b ++ T) (hok : BlockOk before.length b) :
-    mmBlocks dec f (bo :: rest) (before ++ List.replicate (b.flatten.length + k) 0) =
-      mmBlocks dec f rest ((before ++ b.flatten) ++ List.replicate k 0) := by
+    mmBlocks dec f (bo :: rest) (b.flatten.length + k) (before ++ List.replicate (b.flatten.length + k) 0) =
+      mmBlocks dec f rest k ((before ++ b.flatten) ++ List.replicate k 0) := by
   have hfl := flatten_pos b hok.ne hok.subsNe
   have hbl : 0 < b.length := List.length_pos_iff.mpr hok.ne
   have h' : f.drop bo = le32 b.flatten.length ++ (le32 b.flatten.length ++ (le32 0 ++ (le16 b.length ++ (le16 0 ++
@@ -151,7 +156,7 @@ theorem mmBlock_step (dec : Nat → Nat → Nat → List (Nat × Nat) → Bytes 
   have c2 : ¬ b.flatten.length ≤ 0 := by omega
   have c3 : ¬ b.length = 0 := by omega
   simp only [c1, c2, c3, if_false, Nat.zero_mod, show ¬ ((0 : Nat) = 1) by decide, false_and, if_true,
-    mmSubs_spec f b before.length (bo + 20) _ hsubs hok.subs, hstream]
+    mmSubs_spec f b before.length (bo + 20) _ k hsubs hok.subs, hstream]
   rw [mmBlockCopy_spec b before T k hok.subsNe]
 
 /-- all blocks of a written body -/
@@ -162,7 +167,7 @@ def BlocksOk : Nat → List (List Bytes) → Prop
 theorem mmBlocks_walk (dec : Nat → Nat → Nat → List (Nat × Nat) → Bytes → Bytes → Option Bytes) (f : Bytes)
     (blocks : List (List Bytes)) : ∀ (ofs : Nat) (before T : Bytes),
     f.drop ofs = mmBody before.length blocks ++ T → BlocksOk before.length blocks →
-    mmBlocks dec f (mmOffsets ofs before.length blocks)
+    mmBlocks dec f (mmOffsets ofs before.length blocks) ((blocks.map List.flatten).flatten.length)
       (before ++ List.replicate ((blocks.map List.flatten).flatten.length) 0) =
       some (before ++ (blocks.map List.flatten).flatten) := by
   induction blocks with
@@ -299,6 +304,678 @@ theorem decrunchMmcmp_wrap (dec : Nat → Nat → Nat → List (Nat × Nat) → 
   have hbody : F.drop 24 = mmBody ([] : Bytes).length blocks ++ (mmOffsets 24 0 blocks).flatMap le32 := by
     rw [hfile, List.drop_left' hHl]; simp [hB]
   have hwalk := mmBlocks_walk dec F blocks 24 [] _ hbody (by simpa using hok)
+  simp only [List.length_nil, List.nil_append, hP] at hwalk
+  exact hwalk
+
+
+/-! ## the bit reader of the compressed-block decoders -/
+
+theorem mmBitAt_spec (l : Bytes) (i : Nat) (hi : i < 8 * l.length) :
+    mmBitAt l.toArray i = Lzw.streamNat l / 2 ^ i % 2 := by
+  unfold mmBitAt
+  have hq : i / 8 < l.length := by omega
+  have hget : l.toArray[i / 8]? = some (l[i / 8]'hq) := by simp [hq]
+  rw [hget]
+  simp only []
+  have hsplit : i = 8 * (i / 8) + i % 8 := by omega
+  have h256 : (2 : Nat) ^ (8 * (i / 8)) = 256 ^ (i / 8) := by
+    rw [show (256 : Nat) = 2 ^ 8 from rfl, ← Nat.pow_mul]
+  have hd : Lzw.streamNat l / 2 ^ i = Lzw.streamNat (l.drop (i / 8)) / 2 ^ (i % 8) := by
+    conv => lhs; rw [hsplit, Nat.pow_add, ← Nat.div_div_eq_div_mul, h256, Lzw.streamNat_drop]
+  rw [hd]
+  have hdrop : l.drop (i / 8) = l[i / 8]'hq :: l.drop (i / 8 + 1) := by
+    rw [List.drop_eq_getElem_cons hq]
+  rw [hdrop]
+  simp only [Lzw.streamNat]
+  generalize (l[i / 8]'hq).toNat = b
+  generalize Lzw.streamNat (l.drop (i / 8 + 1)) = R
+  have hk : i % 8 < 8 := Nat.mod_lt _ (by decide)
+  generalize i % 8 = k at hk
+  have h8 : (256 : Nat) = 2 ^ k * 2 ^ (8 - k) := by
+    have : k + (8 - k) = 8 := by omega
+    rw [← Nat.pow_add, this]
+  have hpos : 0 < 2 ^ k := Nat.pow_pos (by decide)
+  rw [h8, Nat.mul_assoc, Nat.add_mul_div_left _ _ hpos]
+  have he : 2 ^ (8 - k) = 2 * 2 ^ (7 - k) := by
+    rw [show 8 - k = (7 - k) + 1 by omega, Nat.pow_succ]; omega
+  rw [he, Nat.mul_assoc, Nat.add_mul_mod_self_left]
+
+theorem mmBitAt_append (a b : Bytes) (i : Nat) (hi : i < 8 * a.length) :
+    mmBitAt (a ++ b).toArray i = mmBitAt a.toArray i := by
+  unfold mmBitAt
+  have hq : i / 8 < a.length := by omega
+  have h1 : (a ++ b).toArray[i / 8]? = some (a[i / 8]'hq) := by
+    simp [List.getElem?_append_left hq, hq]
+  have h2 : a.toArray[i / 8]? = some (a[i / 8]'hq) := by simp [hq]
+  rw [h1, h2]
+
+theorem mmGet_spec (a b : Bytes) : ∀ (n pos : Nat), pos + n ≤ 8 * a.length →
+    mmGet (a ++ b).toArray pos n = Lzw.streamNat a / 2 ^ pos % 2 ^ n := by
+  intro n
+  induction n with
+  | zero => intro pos _; simp [mmGet, Nat.mod_one]
+  | succ n ih =>
+    intro pos h
+    rw [mmGet, ih (pos + 1) (by omega), mmBitAt_append a b pos (by omega), mmBitAt_spec a pos (by omega)]
+    have : Lzw.streamNat a / 2 ^ (pos + 1) = Lzw.streamNat a / 2 ^ pos / 2 := by
+      rw [Nat.pow_succ, Nat.div_div_eq_div_mul]
+    rw [this]
+    generalize Lzw.streamNat a / 2 ^ pos = Y
+    rw [Nat.pow_succ, Nat.mul_comm (2 ^ n) 2, Nat.mod_mul]
+
+/-- reading `n` bits at the position where an `n`-bit value was packed gives the value back -/
+theorem mmGet_at (pre post : List Bool) (T : Bytes) (n c : Nat) (hc : c < 2 ^ n) :
+    mmGet (Lzw.packBits (pre ++ Lzw.natToBits n c ++ post) ++ T).toArray pre.length n = c := by
+  rw [mmGet_spec _ T n pre.length (by
+    rw [Lzw.packBits_length]
+    simp only [List.length_append, Lzw.natToBits_length]; omega), Lzw.streamNat_packBits]
+  exact Lzw.read_at pre post n c hc
+
+
+theorem mmCode8_length_pos (v : Nat) : 8 ≤ (mmCode8 v).length := by
+  unfold mmCode8; split <;> simp [Lzw.natToBits_length]
+
+/-- one symbol of the fixed-width encoder through the code reader of `block_unpack_8bit` (plain code or escape) -/
+theorem mmReadCode_code8 (pre post : List Bool) (T : Bytes) (v : Nat) (hv : v < 256) :
+    mmReadCode (Lzw.packBits (pre ++ mmCode8 v ++ post) ++ T).toArray mmCmd8 mmFetch8 8 3 0xf8 pre.length 7 =
+      (some (some v), pre.length + (mmCode8 v).length, 7) := by
+  unfold mmReadCode
+  have hc : mmCmd8.getD 7 0 = 248 := by decide
+  have hf : mmFetch8.getD 7 0 = 0 := by decide
+  by_cases h : v < 0xf8
+  · have hcode : mmCode8 v = Lzw.natToBits 8 v := by simp [mmCode8, h]
+    rw [hcode]
+    have hd := mmGet_at pre post T 8 v (by omega)
+    simp only [hd, hc, Lzw.natToBits_length]
+    have : ¬ v ≥ 248 := by omega
+    simp only [this, if_false]
+  · have hcode : mmCode8 v = Lzw.natToBits 8 0xff ++ Lzw.natToBits 3 (v - 0xf8) ++ (if v = 0xff then [false] else []) := by
+      simp [mmCode8, h]
+    rw [hcode]
+    have hd : mmGet (Lzw.packBits (pre ++ (Lzw.natToBits 8 0xff ++ Lzw.natToBits 3 (v - 0xf8) ++
+        (if v = 0xff then [false] else [])) ++ post) ++ T).toArray pre.length 8 = 255 := by
+      have := mmGet_at pre (Lzw.natToBits 3 (v - 0xf8) ++ (if v = 0xff then [false] else []) ++ post) T 8 255 (by decide)
+      simpa [List.append_assoc] using this
+    have hd2 : mmGet (Lzw.packBits (pre ++ (Lzw.natToBits 8 0xff ++ Lzw.natToBits 3 (v - 0xf8) ++
+        (if v = 0xff then [false] else [])) ++ post) ++ T).toArray (pre.length + 7 + 1 + 0) 3 = v - 248 := by
+      have := mmGet_at (pre ++ Lzw.natToBits 8 0xff) ((if v = 0xff then [false] else []) ++ post) T 3 (v - 0xf8) (by omega)
+      simp only [List.length_append, Lzw.natToBits_length] at this
+      have e : pre.length + 7 + 1 + 0 = pre.length + 8 := by omega
+      rw [e]
+      simpa [List.append_assoc] using this
+    have hb : v = 255 → mmGet (Lzw.packBits (pre ++ (Lzw.natToBits 8 0xff ++ Lzw.natToBits 3 (v - 0xf8) ++
+        (if v = 0xff then [false] else [])) ++ post) ++ T).toArray (pre.length + 7 + 1 + 0 + 3) 1 = 0 := by
+      intro h255
+      subst h255
+      have := mmGet_at (pre ++ Lzw.natToBits 8 0xff ++ Lzw.natToBits 3 (255 - 0xf8)) post T 1 0 (by decide)
+      simp only [List.length_append, Lzw.natToBits_length] at this
+      have e : pre.length + 7 + 1 + 0 + 3 = pre.length + 8 + 3 := by omega
+      rw [e]
+      have hn : Lzw.natToBits 1 0 = [false] := by decide
+      rw [hn] at this
+      simpa [List.append_assoc] using this
+    have hlen : (Lzw.natToBits 8 0xff ++ Lzw.natToBits 3 (v - 0xf8) ++ (if v = 0xff then [false] else [])).length =
+        if v = 255 then 12 else 11 := by
+      split <;> simp [Lzw.natToBits_length]
+    rw [hlen]
+    generalize (Lzw.packBits (pre ++ (Lzw.natToBits 8 0xff ++ Lzw.natToBits 3 (v - 0xf8) ++
+        (if v = 0xff then [false] else [])) ++ post) ++ T).toArray = S at hd hd2 hb ⊢
+    have hz : ∀ (a : Array UInt8) (q : Nat), mmGet a q 0 = 0 := fun _ _ => rfl
+    simp only [hd, hc, hf, ge_iff_le, show (248 : Nat) ≤ 255 by decide, if_true, hz, Nat.zero_add, Nat.pow_zero,
+      Nat.mul_one, show (255 - 248 : Nat) = 7 by decide, ne_eq, not_true_eq_false, if_false, hd2]
+    by_cases h255 : v = 255
+    · have h7 : v - 248 = 2 ^ 3 - 1 := by subst h255; decide
+      simp only [h7, if_true, hb h255, show ¬ ((0 : Nat) = 1) by decide, if_false, h255]
+    · have hne : ¬ v - 248 = 2 ^ 3 - 1 := by
+        have : (2 : Nat) ^ 3 - 1 = 7 := by decide
+        rw [this]; omega
+      simp only [hne, if_false, h255]
+      have e1 : 248 + (v - 248) = v := by omega
+      have e2 : pre.length + 7 + 1 + 0 + 3 = pre.length + 11 := by omega
+      rw [e1, e2]
+
+
+/-! ## the value layer: delta predictor, sub-blocks, output buffer -/
+
+def mmScatter (L : Bytes) (subs : List (Nat × Bytes)) : Bytes := subs.foldl (fun o x => mmWriteAt o x.1 x.2) L
+
+def mmDesc (x : Nat × Bytes) : Nat × Nat := (x.1, x.2.length)
+
+theorem mmWriteAt_length (L : Bytes) (q : Nat) (d : Bytes) (h : q + d.length ≤ L.length) :
+    (mmWriteAt L q d).length = L.length := by
+  unfold mmWriteAt
+  simp only [List.length_append, List.length_take, List.length_drop]; omega
+
+theorem mmWriteAt_cons (L : Bytes) (q : Nat) (b : UInt8) (r : Bytes) (h : q + 1 + r.length ≤ L.length) :
+    mmWriteAt (L.set q b) (q + 1) r = mmWriteAt L q (b :: r) := by
+  have hq : q < L.length := by omega
+  have hL : L = L.take q ++ (L[q] :: L.drop (q + 1)) := by
+    rw [List.getElem_cons_drop, List.take_append_drop]
+  generalize hA : L.take q = A at hL
+  have hAl : A.length = q := by rw [← hA, List.length_take]; omega
+  generalize L[q] = x at hL
+  generalize L.drop (q + 1) = B at hL
+  subst hL
+  have hset : (A ++ x :: B).set q b = A ++ b :: B := by
+    rw [List.set_append]; simp [hAl]
+  rw [hset]
+  unfold mmWriteAt
+  have t1 : (A ++ b :: B).take (q + 1) = A ++ [b] := by
+    rw [List.take_append, List.take_of_length_le (by omega)]; simp [hAl]
+  have t2 : (A ++ b :: B).drop (q + 1 + r.length) = B.drop r.length := by
+    rw [List.drop_append, List.drop_of_length_le (by omega)]
+    have : q + 1 + r.length - A.length = r.length + 1 := by omega
+    rw [this]; simp
+  have t3 : (A ++ x :: B).take q = A := by rw [List.take_left' hAl]
+  have t4 : (A ++ x :: B).drop (q + (b :: r).length) = B.drop r.length := by
+    rw [List.drop_append, List.drop_of_length_le (by omega)]
+    have : q + (b :: r).length - A.length = r.length + 1 := by simp; omega
+    rw [this]; simp
+  rw [t1, t2, t3, t4]; simp
+
+theorem mmWriteAt_nil (L : Bytes) (q : Nat) : mmWriteAt L q [] = L := by
+  unfold mmWriteAt; simp
+
+theorem mmIdentity_get (v : Nat) (hv : v < 256) : (mmIdentity.toArray[v]?.getD 0).toNat = v := by
+  have : mmIdentity.toArray[v]? = some (UInt8.ofNat v) := by
+    simp [mmIdentity, hv]
+  rw [this]; simp [UInt8.toNat_ofNat']; omega
+
+theorem mmSym_lt (delta : Bool) (prev : Nat) (b : UInt8) :
+    (if delta then (b.toNat + 256 - prev) % 256 else b.toNat) < 256 := by
+  have := b.toNat_lt
+  split <;> omega
+
+
+theorem getD_mid {α : Type} (done : List α) (x : α) (rest : List α) (d : α) :
+    (done ++ x :: rest).getD done.length d = x := by
+  simp [List.getD_eq_getElem?_getD]
+
+theorem getD_mid1 {α : Type} (done : List α) (x y : α) (rest : List α) (d : α) :
+    (done ++ x :: y :: rest).getD (done.length + 1) d = y := by
+  have : (done ++ x :: y :: rest) = (done ++ [x]) ++ y :: rest := by simp
+  rw [this]
+  have h := getD_mid (done ++ [x]) y rest d
+  simpa using h
+
+theorem mmSyms_cons (delta : Bool) (prev : Nat) (b : UInt8) (r : Bytes) :
+    mmSyms delta prev (b :: r) = (if delta then (b.toNat + 256 - prev) % 256 else b.toNat) :: mmSyms delta b.toNat r := rfl
+
+/-- one iteration of `block_unpack_8bit` that reads a value -/
+theorem mmLoop8_step (S ptable : Array UInt8) (delta : Bool) (subs : List (Nat × Nat)) (f : Nat)
+    (pos j p ov opos : Nat) (out : Array UInt8) (sym pos' : Nat) (b : UInt8)
+    (hrc : mmReadCode S mmCmd8 mmFetch8 8 3 0xf8 pos 7 = (some (some sym), pos', 7))
+    (hn : (if delta = true then ((ptable[sym]?.getD 0).toNat + ov) % 256 else (ptable[sym]?.getD 0).toNat) = b.toNat)
+    (hq : opos < out.size) :
+    mmLoop8 S ptable delta subs (f + 1) ⟨pos, 7, j, p, ov, opos, out⟩ =
+      match mmNextSub subs ⟨pos', 7, j, p + 1, if delta = true then b.toNat else ov, opos + 1, out.set! opos b⟩ with
+      | none => none
+      | some (st, true) => some st.out
+      | some (st, false) => mmLoop8 S ptable delta subs f st := by
+  rw [mmLoop8]
+  have hq' : ¬ opos ≥ out.size := by omega
+  simp only [hrc, mmPut8, hn, mmWrite8, hq', if_false, UInt8.ofNat_toNat]
+  generalize mmNextSub subs _ = x
+  rcases x with _ | ⟨st, _ | _⟩ <;> rfl
+
+theorem mmNextSub_stay (done : List (Nat × Nat)) (d : Nat × Nat) (rest : List (Nat × Nat)) (st : MmSt)
+    (hj : st.j = done.length) (hp : st.p < d.2) : mmNextSub (done ++ d :: rest) st = some (st, false) := by
+  unfold mmNextSub
+  rw [hj, getD_mid]
+  have : ¬ st.p ≥ d.2 := by omega
+  simp only [this, if_false]
+
+theorem mmNextSub_last (done : List (Nat × Nat)) (d : Nat × Nat) (st : MmSt)
+    (hj : st.j = done.length) (hp : d.2 ≤ st.p) : mmNextSub (done ++ [d]) st = some (st, true) := by
+  unfold mmNextSub
+  rw [hj, getD_mid]
+  have h1 : st.p ≥ d.2 := hp
+  have h2 : done.length + 1 ≥ (done ++ [d]).length := by simp
+  simp only [h1, h2, if_true]
+
+theorem mmNextSub_next (done : List (Nat × Nat)) (d e : Nat × Nat) (rest : List (Nat × Nat)) (st : MmSt)
+    (hj : st.j = done.length) (hp : d.2 ≤ st.p) (he : e.1 < st.out.size) :
+    mmNextSub (done ++ d :: e :: rest) st = some ({ st with j := done.length + 1, p := 0, opos := e.1 }, false) := by
+  unfold mmNextSub
+  rw [hj, getD_mid, getD_mid1]
+  have h1 : st.p ≥ d.2 := hp
+  have h2 : ¬ done.length + 1 ≥ (done ++ d :: e :: rest).length := by simp
+  have h3 : ¬ e.1 ≥ st.out.size := by omega
+  simp only [h1, h2, h3, if_true, if_false]
+
+/-- **the 8-bit block decoder on the encoder's stream**: every sub-block is filled with its bytes, the delta predictor
+    runs through the whole block (it is *not* reset at sub-block borders), the block ends with its last sub-block -/
+theorem mmLoop8_run (delta : Bool) (allbits : List Bool) (T : Bytes) (S : Array UInt8)
+    (hS : S = (Lzw.packBits allbits ++ T).toArray) :
+    ∀ (next : List (Nat × Bytes)) (done : List (Nat × Nat)) (cur : Bytes) (posj sz p prev ov opos : Nat)
+      (pre post : List Bool) (L : Bytes) (out : Array UInt8) (fuel : Nat),
+    cur ≠ [] →
+    allbits = pre ++ (mmSyms delta prev (cur ++ (next.map (·.2)).flatten)).flatMap mmCode8 ++ post →
+    out.toList = L → sz = p + cur.length → opos + cur.length ≤ L.length →
+    (∀ x ∈ next, x.2 ≠ [] ∧ x.1 + x.2.length ≤ L.length) →
+    prev < 256 → (delta = true → ov = prev) →
+    cur.length + ((next.map (·.2)).flatten).length ≤ fuel →
+    (mmLoop8 S mmIdentity.toArray delta (done ++ (posj, sz) :: next.map mmDesc) fuel
+        ⟨pre.length, 7, done.length, p, ov, opos, out⟩).map (·.toList) =
+      some (mmScatter (mmWriteAt L opos cur) next) := by
+  -- the common part of every iteration: the code reader and the value
+  have hcommon : ∀ (b : UInt8) (prev ov : Nat) (pre rest : List Bool), prev < 256 → (delta = true → ov = prev) →
+      allbits = pre ++ mmCode8 (if delta then (b.toNat + 256 - prev) % 256 else b.toNat) ++ rest →
+      ∃ sym, sym = (if delta then (b.toNat + 256 - prev) % 256 else b.toNat) ∧
+        mmReadCode S mmCmd8 mmFetch8 8 3 0xf8 pre.length 7 = (some (some sym), (pre ++ mmCode8 sym).length, 7) ∧
+        (if delta = true then ((mmIdentity.toArray[sym]?.getD 0).toNat + ov) % 256
+          else (mmIdentity.toArray[sym]?.getD 0).toNat) = b.toNat := by
+    intro b prev ov pre rest hprev hov hbits
+    have hsymlt := mmSym_lt delta prev b
+    generalize hsym : (if delta then (b.toNat + 256 - prev) % 256 else b.toNat) = sym at hsymlt hbits
+    refine ⟨sym, rfl, ?_, ?_⟩
+    · have hrc := mmReadCode_code8 pre rest T sym hsymlt
+      rw [← hbits, ← hS] at hrc
+      rw [hrc, List.length_append]
+    · rw [mmIdentity_get sym hsymlt, ← hsym]
+      have := b.toNat_lt
+      cases delta with
+      | false => simp
+      | true => simp only [if_true]; rw [hov rfl]; omega
+  intro next
+  induction next with
+  | nil =>
+    intro done cur
+    induction cur with
+    | nil => intro _ _ _ _ _ _ _ _ _ _ _ h; exact absurd rfl h
+    | cons b r ih =>
+      intro posj sz p prev ov opos pre post L out fuel _ hbits hout hszd hfit _ hprev hov hfuel
+      obtain ⟨f, rfl⟩ : ∃ f, fuel = f + 1 := ⟨fuel - 1, by simp at hfuel; omega⟩
+      obtain ⟨sym, hsym, hrc, hn⟩ := hcommon b prev ov pre
+        ((mmSyms delta b.toNat (r ++ [])).flatMap mmCode8 ++ post) hprev hov
+        (by rw [hbits]; simp [mmSyms_cons, List.append_assoc])
+      have hsz : out.size = L.length := by rw [← hout]; simp
+      have hq : opos < out.size := by simp at hfit; omega
+      rw [List.map_nil, mmLoop8_step S _ delta _ f pre.length done.length p ov opos out sym _ b hrc hn hq]
+      by_cases hr : r = []
+      · subst hr
+        rw [mmNextSub_last done (posj, sz) _ rfl (by simp at hszd ⊢; omega)]
+        simp only [Option.map_some, mmScatter, List.foldl_nil]
+        rw [Array.set!, Array.toList_setIfInBounds, hout, ← mmWriteAt_cons L opos b [] (by simpa using hfit),
+          mmWriteAt_nil]
+      · have hrl : 0 < r.length := List.length_pos_iff.mpr hr
+        rw [mmNextSub_stay done (posj, sz) [] _ rfl (by simp at hszd ⊢; omega)]
+        simp only []
+        have := ih posj sz (p + 1) b.toNat (if delta = true then b.toNat else ov) (opos + 1) (pre ++ mmCode8 sym) post
+          (L.set opos b) (out.set! opos b) f hr
+          (by rw [hbits, hsym]; simp [mmSyms_cons, List.append_assoc])
+          (by rw [Array.set!, Array.toList_setIfInBounds, hout])
+          (by simp at hszd; omega)
+          (by simp at hfit ⊢; omega) (by simp) b.toNat_lt (by intro h; simp [h]) (by simp at hfuel ⊢; omega)
+        rw [List.map_nil] at this
+        rw [this, mmWriteAt_cons L opos b r (by simp at hfit; omega)]
+  | cons nx next ihn =>
+    intro done cur
+    induction cur with
+    | nil => intro _ _ _ _ _ _ _ _ _ _ _ h; exact absurd rfl h
+    | cons b r ih =>
+      intro posj sz p prev ov opos pre post L out fuel _ hbits hout hszd hfit hnext hprev hov hfuel
+      obtain ⟨f, rfl⟩ : ∃ f, fuel = f + 1 := ⟨fuel - 1, by simp at hfuel; omega⟩
+      obtain ⟨sym, hsym, hrc, hn⟩ := hcommon b prev ov pre
+        ((mmSyms delta b.toNat (r ++ ((nx :: next).map (·.2)).flatten)).flatMap mmCode8 ++ post) hprev hov
+        (by rw [hbits]; simp [mmSyms_cons, List.append_assoc])
+      have hsz : out.size = L.length := by rw [← hout]; simp
+      have hq : opos < out.size := by simp at hfit; omega
+      rw [mmLoop8_step S _ delta _ f pre.length done.length p ov opos out sym _ b hrc hn hq]
+      by_cases hr : r = []
+      · subst hr
+        obtain ⟨hnx1, hnx2⟩ := hnext nx (by simp)
+        have hnxl : 0 < nx.2.length := List.length_pos_iff.mpr hnx1
+        rw [List.map_cons, mmNextSub_next done (posj, sz) (mmDesc nx) _ _ rfl (by simp at hszd ⊢; omega)
+          (by simp [mmDesc, hsz]; omega)]
+        simp only []
+        have hdesc : done ++ (posj, sz) :: mmDesc nx :: List.map mmDesc next =
+            (done ++ [(posj, sz)]) ++ (nx.1, nx.2.length) :: List.map mmDesc next := by
+          simp [mmDesc]
+        rw [hdesc]
+        have := ihn (done ++ [(posj, sz)]) nx.2 nx.1 nx.2.length 0 b.toNat (if delta = true then b.toNat else ov)
+          nx.1 (pre ++ mmCode8 sym) post (L.set opos b) (out.set! opos b) f hnx1
+          (by rw [hbits, hsym]; simp [mmSyms_cons, List.append_assoc])
+          (by rw [Array.set!, Array.toList_setIfInBounds, hout])
+          (by omega)
+          (by simp; omega) (by intro x hx; simpa using hnext x (by simp [hx])) b.toNat_lt (by intro h; simp [h])
+          (by simp at hfuel ⊢; omega)
+        simp only [List.length_append, List.length_cons, List.length_nil, Nat.zero_add, mmDesc] at this ⊢
+        rw [this]
+        simp only [mmScatter, List.foldl_cons]
+        rw [← mmWriteAt_cons L opos b [] (by simpa using hfit), mmWriteAt_nil]
+      · have hrl : 0 < r.length := List.length_pos_iff.mpr hr
+        rw [mmNextSub_stay done (posj, sz) _ _ rfl (by simp at hszd ⊢; omega)]
+        simp only []
+        have := ih posj sz (p + 1) b.toNat (if delta = true then b.toNat else ov) (opos + 1) (pre ++ mmCode8 sym) post
+          (L.set opos b) (out.set! opos b) f hr
+          (by rw [hbits, hsym]; simp [mmSyms_cons, List.append_assoc])
+          (by rw [Array.set!, Array.toList_setIfInBounds, hout])
+          (by simp at hszd; omega)
+          (by simp at hfit ⊢; omega) (by intro x hx; simpa using hnext x hx) b.toNat_lt (by intro h; simp [h])
+          (by simp at hfuel ⊢; omega)
+        rw [this, mmWriteAt_cons L opos b r (by simp at hfit; omega)]
+
+theorem mmIdentity_length : mmIdentity.length = 256 := by simp [mmIdentity]
+
+theorem mmScatter_nil (L : Bytes) : mmScatter L [] = L := rfl
+
+theorem mmDesc_sum (rest : List (Nat × Bytes)) :
+    ((rest.map (·.2)).flatten).length = ((rest.map mmDesc).map (·.2)).sum := by
+  induction rest with
+  | nil => rfl
+  | cons a r ih =>
+    simp only [List.map_cons, List.flatten_cons, List.length_append, List.sum_cons, ih, mmDesc]
+
+/-- **`block_unpack_8bit` inverts the fixed-width encoder** (with or without the DELTA flag, any number of sub-blocks
+    anywhere in the output buffer, anything after the packed data): every sub-block receives its bytes. -/
+theorem mmDec_encode8 (delta : Bool) (subs : List (Nat × Bytes)) (T out : Bytes) (hne : subs ≠ [])
+    (hok : ∀ x ∈ subs, x.2 ≠ [] ∧ x.1 + x.2.length ≤ out.length) :
+    mmDec (mmFlagComp + (if delta then mmFlagDelta else 0)) 7 256 (subs.map mmDesc)
+      (mmEncode8 delta (subs.map (·.2)).flatten ++ T) out = some (mmScatter out subs) := by
+  cases subs with
+  | nil => exact absurd rfl hne
+  | cons s0 rest =>
+    obtain ⟨h01, h02⟩ := hok s0 (by simp)
+    have hl0 : 0 < s0.2.length := List.length_pos_iff.mpr h01
+    have hdata : ((s0 :: rest).map (·.2)).flatten = s0.2 ++ (rest.map (·.2)).flatten := by simp
+    rw [hdata]
+    unfold mmDec
+    have hd : ((mmFlagComp + (if delta then mmFlagDelta else 0)) / mmFlagDelta % 2 = 1) = (delta = true) := by
+      cases delta <;> decide
+    have h16 : ¬ (mmFlagComp + (if delta then mmFlagDelta else 0)) / mmFlag16Bit % 2 = 1 := by
+      cases delta <;> decide
+    have htake : (mmEncode8 delta (s0.2 ++ (rest.map (·.2)).flatten) ++ T).take 256 = mmIdentity := by
+      unfold mmEncode8
+      rw [List.append_assoc, List.take_left' mmIdentity_length]
+    have hdrop : (mmEncode8 delta (s0.2 ++ (rest.map (·.2)).flatten) ++ T).drop 256 =
+        Lzw.packBits ((mmSyms delta 0 (s0.2 ++ (rest.map (·.2)).flatten)).flatMap mmCode8) ++ T := by
+      unfold mmEncode8
+      rw [List.append_assoc, List.drop_left' mmIdentity_length]
+    rw [List.map_cons]
+    simp only [h16, if_false, htake, hdrop, mmIdentity_length, Nat.lt_irrefl,
+      show ¬ (mmDesc s0).1 ≥ out.length by simp only [mmDesc]; omega, Nat.sub_self, List.replicate_zero,
+      List.append_nil, hd]
+    generalize hfuel : 8 * (mmEncode8 delta (s0.2 ++ (rest.map (·.2)).flatten) ++ T).length +
+        (List.map (fun x => x.2) (mmDesc s0 :: List.map mmDesc rest)).sum + 64 = fuel
+    have hrun := mmLoop8_run delta ((mmSyms delta 0 (s0.2 ++ (rest.map (·.2)).flatten)).flatMap mmCode8) T _ rfl
+      rest [] s0.2 s0.1 s0.2.length 0 0 0 s0.1 [] [] out out.toArray fuel
+      h01 (by simp) (by simp) (by omega) h02 (by intro x hx; exact hok x (by simp [hx])) (by decide)
+      (by intro _; rfl)
+      (by
+        rw [← hfuel, mmDesc_sum rest, List.map_cons, List.sum_cons]
+        simp only [mmDesc]
+        omega)
+    simp only [List.length_nil, List.nil_append] at hrun
+    rw [show (decide (delta = true)) = delta by cases delta <;> rfl]
+    have h7 : 7 % 256 = 7 := by decide
+    rw [h7]
+    simp only [mmDesc] at hrun ⊢
+    rw [hrun]
+    simp [mmScatter]
+
+/-! ## files with packed blocks: `decrunchMmcmp mmDec` on `mmcmpWrapK` -/
+
+/-- sub-blocks of a block laid out one after the other from `pos` -/
+def mmSubPairs : Nat → List Bytes → List (Nat × Bytes)
+  | _, [] => []
+  | pos, d :: ds => (pos, d) :: mmSubPairs (pos + d.length) ds
+
+theorem mmSubPairs_desc (ds : List Bytes) : ∀ pos, (mmSubPairs pos ds).map mmDesc = mmSubSpec pos ds := by
+  induction ds with
+  | nil => intro _; rfl
+  | cons d ds ih => intro pos; simp only [mmSubPairs, List.map_cons, mmSubSpec, ih, mmDesc]
+
+theorem mmSubPairs_data (ds : List Bytes) : ∀ pos, (mmSubPairs pos ds).map (·.2) = ds := by
+  induction ds with
+  | nil => intro _; rfl
+  | cons d ds ih => intro pos; simp only [mmSubPairs, List.map_cons, ih]
+
+theorem mmSubPairs_ok (ds : List Bytes) (hne : ∀ d ∈ ds, d ≠ []) (N : Nat) : ∀ pos, pos + ds.flatten.length ≤ N →
+    ∀ x ∈ mmSubPairs pos ds, x.2 ≠ [] ∧ x.1 + x.2.length ≤ N := by
+  induction ds with
+  | nil => intro _ _ x hx; simp [mmSubPairs] at hx
+  | cons d ds ih =>
+    intro pos hN x hx
+    simp only [List.flatten_cons, List.length_append] at hN
+    simp only [mmSubPairs, List.mem_cons] at hx
+    rcases hx with rfl | hx
+    · exact ⟨hne d (by simp), by simp only []; omega⟩
+    · exact ih (fun y hy => hne y (by simp [hy])) (pos + d.length) (by omega) x hx
+
+theorem mmScatter_zeros (ds : List Bytes) : ∀ (before : Bytes) (k : Nat),
+    mmScatter (before ++ List.replicate (ds.flatten.length + k) 0) (mmSubPairs before.length ds) =
+      (before ++ ds.flatten) ++ List.replicate k 0 := by
+  induction ds with
+  | nil => intro before k; simp [mmSubPairs, mmScatter]
+  | cons d ds ih =>
+    intro before k
+    simp only [mmSubPairs, mmScatter, List.foldl_cons, List.flatten_cons, List.length_append]
+    have hre : d.length + ds.flatten.length + k = d.length + (ds.flatten.length + k) := by omega
+    rw [hre, mmWriteAt_zeros before d (ds.flatten.length + k)]
+    have := ih (before ++ d) k
+    simp only [List.length_append, mmScatter] at this
+    rw [this]; simp only [List.append_assoc]
+
+/-- a packed block whose sub-blocks follow each other in the zero-filled buffer -/
+theorem mmDec_block (delta : Bool) (b : List Bytes) (before T : Bytes) (k : Nat) (hne : b ≠ [])
+    (hs : ∀ d ∈ b, d ≠ []) :
+    mmDec (mmFlagsK (some delta)) 7 256 (mmSubSpec before.length b) (mmEncode8 delta b.flatten ++ T)
+      (before ++ List.replicate (b.flatten.length + k) 0) = some ((before ++ b.flatten) ++ List.replicate k 0) := by
+  have h := mmDec_encode8 delta (mmSubPairs before.length b) T (before ++ List.replicate (b.flatten.length + k) 0)
+    (by cases b with
+        | nil => exact absurd rfl hne
+        | cons d ds => simp [mmSubPairs])
+    (mmSubPairs_ok b hs _ before.length (by simp))
+  rw [mmSubPairs_desc, mmSubPairs_data, mmScatter_zeros] at h
+  exact h
+
+theorem mmEncode8_length_gt (delta : Bool) (data : Bytes) (h : data ≠ []) : 256 < (mmEncode8 delta data).length := by
+  cases data with
+  | nil => exact absurd rfl h
+  | cons b r =>
+    unfold mmEncode8
+    rw [List.length_append, mmIdentity_length, Lzw.packBits_length, mmSyms_cons, List.flatMap_cons, List.length_append]
+    have := mmCode8_length_pos (if delta then (b.toNat + 256 - 0) % 256 else b.toNat)
+    omega
+
+theorem mmBlockBytesK_length (kind : Option Bool) (pos : Nat) (b : List Bytes) :
+    (mmBlockBytesK kind pos b).length = 20 + 8 * b.length + (mmPayloadK kind b.flatten).length := by
+  unfold mmBlockBytesK
+  simp only [List.length_append, le32_length, le16_length, mmSubTable_length]
+
+structure BlockOkK (kind : Option Bool) (pos : Nat) (b : List Bytes) : Prop where
+  base : BlockOk pos b
+  packed : (mmPayloadK kind b.flatten).length < 2 ^ 31
+
+/-- one block of either kind: header tests pass, the sub-block table is read back, the data lands in the output -/
+theorem mmBlockK_step (f : Bytes) (kind : Option Bool)
+    (bo : Nat) (b : List Bytes) (before T : Bytes) (k : Nat) (rest : List Nat)
+    (h : f.drop bo = mmBlockBytesK kind before.length b ++ T) (hokK : BlockOkK kind before.length b) :
+    mmBlocks mmDec f (bo :: rest) (b.flatten.length + k) (before ++ List.replicate (b.flatten.length + k) 0) =
+      mmBlocks mmDec f rest k ((before ++ b.flatten) ++ List.replicate k 0) := by
+  have hok := hokK.base
+  have hfl := flatten_pos b hok.ne hok.subsNe
+  have hfne : b.flatten ≠ [] := List.length_pos_iff.mp hfl
+  have hbl : 0 < b.length := List.length_pos_iff.mpr hok.ne
+  generalize hPK : mmPayloadK kind b.flatten = PK at h
+  have hpk31 : PK.length < 2 ^ 31 := by rw [← hPK]; exact hokK.packed
+  have hfl16 : mmFlagsK kind < 65536 := by
+    rcases kind with _ | _ | _ <;> decide
+  have htt16 : mmTtK kind < 65536 := by
+    rcases kind with _ | _ <;> simp [mmTtK]
+  have hbi16 : mmBitsK kind < 65536 := by
+    rcases kind with _ | _ <;> simp [mmBitsK]
+  have h' : f.drop bo = le32 b.flatten.length ++ (le32 PK.length ++ (le32 0 ++ (le16 b.length ++ (le16 (mmFlagsK kind) ++
+      (le16 (mmTtK kind) ++ (le16 (mmBitsK kind) ++ (mmSubTable before.length b ++ (PK ++ T)))))))) := by
+    rw [h]; unfold mmBlockBytesK; simp only [List.append_assoc, hPK]
+  have hflen : ¬ f.length < bo + 20 := by
+    have := congrArg List.length h'
+    simp only [List.length_drop, List.length_append, le32_length, le16_length] at this
+    omega
+  have e0 : u32At f bo = b.flatten.length := by
+    have := u32At_drop' f bo 0
+    rw [Nat.add_zero] at this
+    rw [this, h']; exact u32At_le32 _ (by have := hok.size; omega) _
+  have e4 : u32At f (bo + 4) = PK.length := by
+    rw [u32At_drop', h']; simp only [u32At_s32]; exact u32At_le32 _ (by omega) _
+  have e12 : u16At f (bo + 12) = b.length := by
+    rw [u16At_drop', h']; simp only [u16At_s32]; exact u16At_le16 _ hok.count _
+  have e14 : u16At f (bo + 14) = mmFlagsK kind := by
+    rw [u16At_drop', h']; simp only [u16At_s32, u16At_s16]; exact u16At_le16 _ hfl16 _
+  have e16 : u16At f (bo + 16) = mmTtK kind := by
+    rw [u16At_drop', h']; simp only [u16At_s32, u16At_s16]; exact u16At_le16 _ htt16 _
+  have e18 : u16At f (bo + 18) = mmBitsK kind := by
+    rw [u16At_drop', h']; simp only [u16At_s32, u16At_s16]; exact u16At_le16 _ hbi16 _
+  have hsubs : f.drop (bo + 20) = mmSubTable before.length b ++ (PK ++ T) := by
+    rw [← List.drop_drop, h']
+    have : (le32 b.flatten.length ++ (le32 PK.length ++ (le32 0 ++ (le16 b.length ++ (le16 (mmFlagsK kind) ++
+        (le16 (mmTtK kind) ++ (le16 (mmBitsK kind) ++ (mmSubTable before.length b ++ (PK ++ T))))))))) =
+        (le32 b.flatten.length ++ le32 PK.length ++ le32 0 ++ le16 b.length ++ le16 (mmFlagsK kind) ++
+          le16 (mmTtK kind) ++ le16 (mmBitsK kind)) ++
+        (mmSubTable before.length b ++ (PK ++ T)) := by simp only [List.append_assoc]
+    rw [this, List.drop_left' (by simp only [List.length_append, le32_length, le16_length])]
+  have hstream : f.drop (bo + 20 + 8 * b.length) = PK ++ T := by
+    rw [← List.drop_drop, hsubs, List.drop_left' (mmSubTable_length b before.length)]
+  have hpkpos : mmTtK kind < PK.length := by
+    rw [← hPK]
+    rcases kind with _ | delta
+    · simpa [mmTtK, mmPayloadK] using hfl
+    · simpa [mmTtK, mmPayloadK] using mmEncode8_length_gt delta b.flatten hfne
+  rw [mmBlocks]
+  simp only [hflen, if_false, e0, e4, e12, e14, e16, e18]
+  have c1 : ¬ (b.flatten.length = 0 ∨ b.flatten.length ≥ 2 ^ 31 ∨ PK.length = 0 ∨ PK.length ≥ 2 ^ 31) := by
+    have := hok.size; omega
+  have c2 : ¬ PK.length ≤ mmTtK kind := by omega
+  have c3 : ¬ b.length = 0 := by omega
+  have c4 : ¬ (mmFlagsK kind % 2 = 1 ∧ ((mmFlagsK kind / 4 % 2 = 1 ∧ mmBitsK kind ≥ 16) ∨
+      (mmFlagsK kind / 4 % 2 = 0 ∧ mmBitsK kind ≥ 8))) := by
+    rcases kind with _ | _ | _ <;> decide
+  simp only [c1, c2, c3, c4, if_false, mmSubs_spec f b before.length (bo + 20) _ k hsubs hok.subs, hstream]
+  rcases kind with _ | delta
+  · have hz : mmFlagsK none % 2 = 0 := by decide
+    simp only [hz, if_true]
+    rw [← hPK]
+    simp only [mmPayloadK]
+    rw [mmBlockCopy_spec b before T k hok.subsNe]
+  · have hz : ¬ mmFlagsK (some delta) % 2 = 0 := by cases delta <;> decide
+    simp only [hz, if_false]
+    rw [← hPK]
+    simp only [mmPayloadK, mmTtK, mmBitsK]
+    rw [mmDec_block delta b before T k hok.ne hok.subsNe]
+
+def BlocksOkK : Nat → List (Option Bool × List Bytes) → Prop
+  | _, [] => True
+  | pos, b :: bs => BlockOkK b.1 pos b.2 ∧ BlocksOkK (pos + b.2.flatten.length) bs
+
+theorem mmBlocksK_walk (f : Bytes) (blocks : List (Option Bool × List Bytes)) : ∀ (ofs : Nat) (before T : Bytes),
+    f.drop ofs = mmBodyK before.length blocks ++ T → BlocksOkK before.length blocks →
+    mmBlocks mmDec f (mmOffsetsK ofs before.length blocks) ((blocks.map (fun b => b.2.flatten)).flatten.length)
+      (before ++ List.replicate ((blocks.map (fun b => b.2.flatten)).flatten.length) 0) =
+      some (before ++ (blocks.map (fun b => b.2.flatten)).flatten) := by
+  induction blocks with
+  | nil => intro ofs before T _ _; simp [mmOffsetsK, mmBlocks]
+  | cons b bs ih =>
+    intro ofs before T h hok
+    obtain ⟨hb, hbs⟩ := hok
+    simp only [mmBodyK, List.append_assoc] at h
+    simp only [mmOffsetsK, List.map_cons, List.flatten_cons, List.length_append]
+    rw [mmBlockK_step f b.1 ofs b.2 before _ _ _ h hb]
+    have h2 : f.drop (ofs + (mmBlockBytesK b.1 before.length b.2).length) =
+        mmBodyK (before ++ b.2.flatten).length bs ++ T := by
+      rw [← List.drop_drop, h, List.drop_left, List.length_append]
+    have := ih (ofs + (mmBlockBytesK b.1 before.length b.2).length) (before ++ b.2.flatten) T h2
+      (by rw [List.length_append]; exact hbs)
+    rw [List.length_append] at this
+    rw [this, List.append_assoc]
+
+theorem mmOffsetsK_length (blocks : List (Option Bool × List Bytes)) :
+    ∀ ofs pos, (mmOffsetsK ofs pos blocks).length = blocks.length := by
+  induction blocks with
+  | nil => intro _ _; rfl
+  | cons b bs ih => intro ofs pos; simp [mmOffsetsK, ih]
+
+theorem mmOffsetsK_lt (blocks : List (Option Bool × List Bytes)) : ∀ ofs pos, ∀ o ∈ mmOffsetsK ofs pos blocks,
+    o < ofs + (mmBodyK pos blocks).length + 1 := by
+  induction blocks with
+  | nil => intro _ _ o ho; simp [mmOffsetsK] at ho
+  | cons b bs ih =>
+    intro ofs pos o ho
+    simp only [mmOffsetsK, List.mem_cons] at ho
+    simp only [mmBodyK, List.length_append]
+    rcases ho with h | h
+    · omega
+    · have := ih _ _ o h
+      omega
+
+/-- **MMCMP framing, stored and packed blocks**: the model of `decrunch_mmcmp` with the modelled `block_unpack_8bit`
+    returns the payload of every file written by `mmcmpWrapK`, for any split into blocks and sub-blocks and any choice
+    stored / packed / packed+DELTA per block -/
+theorem decrunchMmcmp_wrapK (blocks : List (Option Bool × List Bytes)) (hne : blocks ≠ []) (hcount : blocks.length < 65536)
+    (hok : BlocksOkK 0 blocks)
+    (h16 : 16 ≤ ((blocks.map (fun b => b.2.flatten)).flatten).length)
+    (hlim : ((blocks.map (fun b => b.2.flatten)).flatten).length ≤ depackLimit)
+    (hsz : 24 + (mmBodyK 0 blocks).length < 2 ^ 32) :
+    decrunchMmcmp mmDec (mmcmpWrapK blocks) = some ((blocks.map (fun b => b.2.flatten)).flatten) := by
+  generalize hP : (blocks.map (fun b => b.2.flatten)).flatten = P at *
+  generalize hB : mmBodyK 0 blocks = body at *
+  have hfile : mmcmpWrapK blocks =
+      (([0x7a, 0x69, 0x52, 0x43, 0x4f, 0x4e, 0x69, 0x61] : Bytes) ++ (le16 14 ++ (le16 0x1300 ++ (le16 blocks.length ++
+        (le32 P.length ++ (le32 (24 + body.length) ++ ([0, 0] : Bytes))))))) ++
+      (body ++ (mmOffsetsK 24 0 blocks).flatMap le32) := by
+    unfold mmcmpWrapK
+    simp only [hP, hB, List.append_assoc]
+  generalize hH : (([0x7a, 0x69, 0x52, 0x43, 0x4f, 0x4e, 0x69, 0x61] : Bytes) ++ (le16 14 ++ (le16 0x1300 ++
+      (le16 blocks.length ++ (le32 P.length ++ (le32 (24 + body.length) ++ ([0, 0] : Bytes))))))) = H at hfile
+  have hHl : H.length = 24 := by
+    rw [← hH]; simp only [List.length_append, le16_length, le32_length]; rfl
+  generalize hF : mmcmpWrapK blocks = F at *
+  have hFl : F.length = 24 + body.length + 4 * blocks.length := by
+    rw [hfile]
+    have : ∀ l : List Nat, (l.flatMap le32).length = 4 * l.length := by
+      intro l; induction l with
+      | nil => rfl
+      | cons x xs ih => simp only [List.flatMap_cons, List.length_append, le32_length, ih, List.length_cons]; omega
+    simp only [List.length_append, hHl, this, mmOffsetsK_length]; omega
+  have hmagic : memEqAt F 0 [0x7a, 0x69, 0x52, 0x43, 0x4f, 0x4e, 0x69, 0x61] = true := by
+    rw [hfile, ← hH]; simp [memEqAt, bAt]
+  have e8 : u16At F 8 = 14 := by
+    rw [hfile, ← hH]; simp only [List.append_assoc]
+    rw [show (8 : Nat) = 0 + 8 from rfl, u16At_skip _ _ 0 8 rfl]
+    exact u16At_le16 _ (by decide) _
+  have e12 : u16At F 12 = blocks.length := by
+    rw [hfile, ← hH]; simp only [List.append_assoc]
+    rw [show (12 : Nat) = 4 + 8 from rfl, u16At_skip _ _ 4 8 rfl]
+    simp only [u16At_s16]
+    exact u16At_le16 _ hcount _
+  have e14 : u32At F 14 = P.length := by
+    rw [hfile, ← hH]; simp only [List.append_assoc]
+    rw [show (14 : Nat) = 6 + 8 from rfl, u32At_skip _ _ 6 8 rfl]
+    simp only [u32At_s16]
+    exact u32At_le32 _ (by unfold depackLimit at hlim; omega) _
+  have e18 : u32At F 18 = 24 + body.length := by
+    rw [hfile, ← hH]; simp only [List.append_assoc]
+    rw [show (18 : Nat) = 10 + 8 from rfl, u32At_skip _ _ 10 8 rfl]
+    simp only [u32At_s16, u32At_s32]
+    exact u32At_le32 _ hsz _
+  have hbl : 0 < blocks.length := List.length_pos_iff.mpr hne
+  unfold decrunchMmcmp
+  have c0 : ¬ F.length < 24 := by omega
+  have c1 : ¬ (blocks.length = 0 ∨ P.length < 16 ∨ P.length > depackLimit) := by omega
+  simp only [c0, hmagic, e8, e12, e14, e18, c1, if_false, Bool.not_true, Bool.false_eq_true, ne_eq, not_true_eq_false]
+  have htab : F.drop (24 + body.length) = (mmOffsetsK 24 0 blocks).flatMap le32 ++ [] := by
+    rw [hfile, ← List.append_assoc, List.drop_left' (by rw [List.length_append, hHl]), List.append_nil]
+  have hofs : ∀ o ∈ mmOffsetsK 24 0 blocks, o < 2 ^ 32 := by
+    intro o ho
+    have := mmOffsetsK_lt blocks 24 0 o ho
+    rw [hB] at this; omega
+  have := mmTable_spec F (mmOffsetsK 24 0 blocks) (24 + body.length) [] htab hofs
+  rw [mmOffsetsK_length] at this
+  rw [this]
+  simp only []
+  have hbody : F.drop 24 = mmBodyK ([] : Bytes).length blocks ++ (mmOffsetsK 24 0 blocks).flatMap le32 := by
+    rw [hfile, List.drop_left' hHl]; simp [hB]
+  have hwalk := mmBlocksK_walk F blocks 24 [] _ hbody (by simpa using hok)
   simp only [List.length_nil, List.nil_append, hP] at hwalk
   exact hwalk
 
